@@ -11,6 +11,9 @@ rsync -a --include='*/' --include='*.go' --include='go.mod' --include='go.sum' -
 $BIN run -root $T/src/diagonal.works/b6 -brief > $T/out.txt 2>&1
 grep -E "^(violation|undecided|ERROR|PANIC)" $T/out.txt | awk '{print $1, $2}' | sort > $T/keys.txt
 echo "--- new failing obligations for $(basename $S):"
-comm -13 /verif/.cache/base-brief.txt $T/keys.txt
+comm -13 /verif/.cache/base-brief.txt $T/keys.txt | while read st key; do
+  props=$(grep -E "^$st $(printf '%s' "$key" | sed 's/[][\.*^$()+?{}|]/\\&/g') " $T/out.txt | head -1 | grep -o '\[C[0-9C,]*\]' | head -1)
+  echo "$st $key $props"
+done
 grep -E "fewer than|vacuous" $T/out.txt
 rm -rf $T
